@@ -32,7 +32,7 @@ TPSet == Line.e = "p_settings" /\ PeerSettings(Line.iw, Line.mf) /\ Keep
 TPHdr == /\ Line.e = "p_hdr" /\ InS(Line.s)
          /\ rst' = [rst EXCEPT ![Line.s] = IF Line.es /\ @ \in {"open", "noBody"} THEN "ended" ELSE @]
          /\ decl' = [decl EXCEPT ![Line.s] = Line.decl]
-         /\ UNCHANGED <<pcw, piw, pmf, sdelta, appw, sentb, sst, W, ca, siw, rdelta, unread, rdoff, cu, minRefresh, owe, dead, dev, role, got>>
+         /\ UNCHANGED <<pcw, piw, pmf, sdelta, appw, sentb, sst, W, ca, siw, rdelta, unread, rdoff, cu, su, minRefresh, owe, dead, dev, role, got>>
 TPRst == Line.e = "p_rst" /\ InS(Line.s) /\ SendEnd(Line.s) /\ Keep
 
 (* the server does not buffer DATA beyond the declared Content-Length *)
@@ -72,7 +72,7 @@ TLive ==
           THEN /\ cu' = cu + Sum(unread, g)      \* the Transport keeps the response body readable
                /\ unread' = [s \in Streams |-> IF s \in g THEN 0 ELSE unread[s]]
           ELSE UNCHANGED <<cu, unread>>
-    /\ UNCHANGED <<pcw, piw, pmf, sdelta, appw, sentb, sst, W, ca, siw, rdelta, rdoff, minRefresh, owe, dead, dev>>
+    /\ UNCHANGED <<pcw, piw, pmf, sdelta, appw, sentb, sst, W, ca, siw, rdelta, rdoff, su, minRefresh, owe, dead, dev>>
     /\ Keep
 
 TEData == Line.e = "e_data" /\ InS(Line.s) /\ SendData(Line.s, Line.n, Line.es) /\ Keep
@@ -85,6 +85,13 @@ TEClosed == Line.e = "e_closed" /\ ConnClosed /\ Keep
 (* (a byte lost or invented anywhere shows at the next quiescent point)                        *)
 TQ     == /\ Line.e = "q" /\ QuiesceOK
           /\ (Judged("credit") /\ ~dead /\ Line.unsent >= 0) => cu = Line.unsent
+          \* white box: the windows the endpoint enforces are exactly the windows it advertised
+          /\ (Judged("recv") /\ ~dead /\ Line.avail >= 0) =>
+                /\ ca = Line.avail
+                /\ \A k \in 1..Len(Line.savail) :
+                      LET id == Line.savail[k][1] IN
+                      (InS(id) /\ rst[id] \in {"open", "noBody"}) =>
+                          (RW(id) <= Line.savail[k][2] /\ Line.savail[k][2] <= RW(id) + su[id])
           /\ UNCHANGED vars /\ Keep
 
 TNext ==
